@@ -11,7 +11,7 @@ Stubs (module attributes of moPepGen.cli.call_variant_peptide, restored afterwar
 import sys
 
 import moPepGen.cli.call_variant_peptide  # noqa: F401
-from mpgverif.hlib import OK, SKIP, NullLogger, cond, patched
+from mpgverif.hlib import OK, SKIP, NullLogger, concretize, cond, patched
 
 USE_SHIM = False
 USE_TOKENS = False
@@ -327,3 +327,43 @@ def c02_timeout_retries(n_timeouts: int, mv0: int, mv1: int, n_mv: int, av0: int
     post: _ >= 0
     """
     return _reducer(n_timeouts, mv0, mv1, n_mv, av0, av1, n_av)
+
+
+# ------------------------------------------------------------------ C05: adding a fusion record only adds
+def _added_fusion(has_main, alt, nf, nc, nct):
+    """the same transcript processed with nf and with nf + 1 fusion records (no failures): every peptide / header
+    entry of the smaller run is still there, what is new belongs to the added fusion, and the other units are
+    called with the same variants as before"""
+    (small, _, _, _, _), _ = run_wrapper(has_main, alt, nf, nc, False, [False, False], [False, False], False, nct)
+    seen_small = list(run_wrapper.seen_pools)
+    (big, _, _, _, _), _ = run_wrapper(has_main, alt, nf + 1, nc, False, [False, False], [False, False], False, nct)
+    seen_big = list(run_wrapper.seen_pools)
+    a = {k: sorted(x.label for x in v) for k, v in small.items()}
+    b = {k: sorted(x.label for x in v) for k, v in big.items()}
+    new = f'LF{nf}'
+    for k, labs in a.items():
+        if k not in b:
+            return -1              # adding a fusion record removed a peptide
+        if any(x not in b[k] for x in labs):
+            return -2              # ... or one of its header entries
+    for k, labs in b.items():
+        extra = [x for x in labs if x not in a.get(k, [])]
+        if any(x != new for x in extra):
+            return -3              # something new that is not attributable to the added fusion
+    if [s for s in seen_small if s[0] == 'C'] != [s for s in seen_big if s[0] == 'C']:
+        return -4                  # circRNA units were called with other variants than before
+    return OK
+
+
+@cond('C05', bounds='per-transcript wrapper with 0..1 fusion records versus one more, 0..2 circRNAs, main unit present or '
+      'not, --noncanonical-transcripts symbolic; no failures', encodes=ENC, stubs=STUBS,
+      codes={-1: 'adding a fusion record removed a peptide', -2: 'adding a fusion record removed a header entry',
+             -3: 'a new peptide / header entry is not attributable to the added fusion',
+             -4: 'with the added fusion the circRNA units were called with a different variant list'}, shim=False,
+      timeout=300)
+def c05_added_fusion_only_adds(has_main: bool, alt: bool, nf: int, nc: int, nct: bool) -> int:
+    """
+    pre: 0 <= nf <= 1 and 0 <= nc <= 2
+    post: _ >= 0
+    """
+    return _added_fusion(has_main, alt, concretize(nf, 0, 1), concretize(nc, 0, 2), nct)
